@@ -250,8 +250,16 @@ func (smpStateExpect1) startAuthenticate(c *Conversation, question string, mutua
 		s1.msg.question = question
 	}
 
+	// the TLV length field is 16 bits wide
+	t := s1.msg.tlv()
+	if len(t.tlvValue) > 0xFFFF {
+		c.smp.wipe()
+		c.smp.state = smpStateExpect1{}
+		return nil, newOtrError("question too long for a TLV")
+	}
+
 	c.smp.s1 = &s1
 	c.smp.state = smpStateExpect2{}
 
-	return []tlv{s1.msg.tlv()}, nil
+	return []tlv{t}, nil
 }
